@@ -36,6 +36,7 @@ def step (args : List String) : String :=
       | some ["none"] => some none
       | some ["allow", l] => some (some { allow := some (parseList l), deny := none })
       | some ["deny", l] => some (some { allow := none, deny := some (parseList l) })
+      | some ["both", al, dl] => some (some { allow := some (parseList al), deny := some (parseList dl) })
       | _ => none
     match cred, access, natArg rest "signed", argOf rest "trusted" with
     | some c, some a, some sg, some tr =>
